@@ -33,7 +33,7 @@ class C09(C.PipelineCheck):
     id = 'C09'
     title = 'In Zod mode no schema is read before it is defined'
     modes = ('zod',)
-    required_covers = ('dag', 'edge-context', 'param-schema', 'two-files')
+    required_covers = ('dag', 'edge-context', 'param-schema', 'two-files', 'event-root')
 
     def bounds(self, tier):
         q = tier != 'thorough'
@@ -86,8 +86,13 @@ class C09(C.PipelineCheck):
                 ectx = {}
                 site = ('param', 'return')[e.choose(2)]
                 split = set([1]) if e.choose(2) == 1 else set()
+                esite = 'param'
                 if shape == 'join':
                     extra = 1
+                    # the second root as a command parameter, or reached only through an event payload (shared dependency with a command type)
+                    esite = ('param', 'payload')[e.choose(2)]
+                    if esite == 'payload':
+                        e.cover('event-root')
                 tag = 'dag:%s' % shape
                 e.cover('dag')
             else:
@@ -100,7 +105,7 @@ class C09(C.PipelineCheck):
                 e.cover('edge-context')
             if split:
                 e.cover('two-files')
-            files, exp, allnames = G.build(shape, names, ectx, site, '-', split=split, extra_root=extra, decoys=False)
+            files, exp, allnames = G.build(shape, names, ectx, site, '-', split=split, extra_root=extra, decoys=False, extra_root_site=esite if kind == 'dag' else 'param')
             proj = PL.Project(files, holes, {'validation_library': 'zod'})
             run = PL.run_model(I, proj)
             if run.result.var != 'Ok':
